@@ -65,7 +65,7 @@ for _pid in MM.CHECKS:
 
 # the lock stream (faults.py): real database-lock faults; monitor-only
 import faults as _FL
-for _pid in ("C02", "C07", "C08", "C09", "C13", "C14", "C16"):
+for _pid in ("C02", "C03", "C07", "C08", "C09", "C13", "C14", "C16"):
     PROPS[_pid]["extra"] = _FL.chain(PROPS[_pid]["extra"], _FL.extra(_pid)) if PROPS[_pid].get("extra") else _FL.extra(_pid)
 
 # harness validity (validity.py): real kills vs simulated crashes (C10), real loopback WebSockets vs direct calls (C17 C02)
